@@ -253,7 +253,8 @@ def core_eof(o1, o2, nbody, tail, start10=False):
 
 
 SOUP = ['xx = 1', 'if xx:', 'elif yy:', 'else:', 'endif', 'while xx:', 'endwhile', 'for vv in aa:', 'endfor', 'break', 'continue',
-        'function ff(aa):', 'endfunction', 'return xx', 'jump lbl', 'lbl:', 'xx +', ')', "include 'a'", 'jumpif (xx lbl', 'xx = = 1', 'ff(', '@']
+        'function ff(aa):', 'endfunction', 'return xx', 'jump lbl', 'lbl:', 'xx +', ')', "include 'a'", 'jumpif (xx lbl', 'xx = = 1', 'ff(', '@',
+        'xx = 2e', 'return 1.5e-', 'if 7else:']
 FIRST = {first}
 
 
@@ -302,17 +303,17 @@ def plan(tier, seed, workdir):
                          core_call='core_eof(o1, o2, nbody, tail, start10)')
     path = hgen.write_module(workdir, 'c06_eof', body, stub=False)
     hgen.ch_tasks(p, path, 'eof', timeout, twin_timeout=60, est=60, family='E1 end-of-input shapes')
-    firsts = range(23) if tier == 'thorough' else range(0, 23, 2)
+    firsts = range(26) if tier == 'thorough' else list(range(0, 23, 2)) + [23, 24, 25]
     for first in firsts:
         body = CORE.format(kind=0, first=first)
-        body += hgen.harness('soup', 'l2: int, l3: int, n: int', ['0 <= l2 < 23', '0 <= l3 < 23', '1 <= n <= 3'], core_call='core_soup(l2, l3, n)')
+        body += hgen.harness('soup', 'l2: int, l3: int, n: int', ['0 <= l2 < 26', '0 <= l3 < 26', '1 <= n <= 3'], core_call='core_soup(l2, l3, n)')
         path = hgen.write_module(workdir, f'c06_soup_{first:02d}', body, stub=False)
         hgen.ch_tasks(p, path, 'soup', timeout, twin_timeout=60, est=60, family='E1 token-soup totality', first_line=first)
     p.rule = ('1 z3 lemma on the real AST of BareScriptParserError.__init__ (all n, all columns); CrossHair conditions per statement kind '
               '(fault x indentation x trailing blanks x prepended lines x start line x padding x continuation chosen by symbolic ints), '
               'end-of-input shapes, and 3-line token soup per first line')
     p.bounds = ['E2: unbounded line length and column', 'E1: 8 statement kinds x 4 faults x 3 indents x 3 trailing x {0..3} prepended lines x 2 start '
-                'lines x 3 paddings (0, 84, 210 characters) x 4 continuation layouts', 'token soup: 23-line vocabulary, <= 3 lines']
+                'lines x 3 paddings (0, 84, 210 characters) x 4 continuation layouts', 'token soup: 26-line vocabulary, <= 3 lines']
     p.stubs = []
     p.outside = ['arbitrary texts, faults at every column of arbitrary long lines, nesting depth 50, backslash runs (symbolic text cannot reach the parser)']
     p.assumptions = ['z3 LIA', 'vf.symint + abstract line slices', 'CrossHair for the enumeration']
